@@ -25,6 +25,7 @@ let run_decoder : 'st. ('st -> src -> (((n list * 'st) * src)) outcome) -> n -> 
     let h = ref 0xcbf29ce484222325L in
     let evh = ref 0xcbf29ce484222325L in
     let evn = ref 0 in
+    let allout = ref [] in
     let small = Buffer.create 200 in
     let small_len = ref 0 in
     let sizes = Buffer.create 64 in
@@ -40,6 +41,7 @@ let run_decoder : 'st. ('st -> src -> (((n list * 'st) * src)) outcome) -> n -> 
            | Ok ((out, evs), d') ->
              d := d';
              let got = List.length out in
+             allout := List.rev_append out !allout;
              List.iter (fun b -> let bi = int_of_n b in fnv_byte h bi;
                          if !small_len < 96 then (Buffer.add_string small (Printf.sprintf "%02x" bi); incr small_len)) out;
              events evs;
@@ -53,8 +55,9 @@ let run_decoder : 'st. ('st -> src -> (((n list * 'st) * src)) outcome) -> n -> 
     | Some f -> f
     | None ->
       if !readno = monitor_at then monitor ();
-      Printf.sprintf "r=%s h=%016Lx len=%d crc=%04x ev=%d:%016Lx hex=%s in=%d"
+      Printf.sprintf "r=%s h=%016Lx len=%d crc=%04x icrc=%04x ev=%d:%016Lx hex=%s in=%d"
         (Buffer.contents sizes) !h (int_of_n (lha_decoder_get_length !d)) (int_of_n (lha_decoder_get_crc !d))
+        (int_of_n (crc_bitwise N0 (List.rev !allout)))
         !evn !evh (if !small_len = 0 then "-" else Buffer.contents small)
         (List.length src0.src_data - List.length (!d).d_cb.src_data)
 
